@@ -167,6 +167,9 @@ def run(check, ctx):
     # GHASH (the tag of GCM) in both native implementations
     from . import c_ghash
     c_ghash.ghash_tables(check, ctx)
+    # key wrap (KW, KWP): wrapping byte for byte, every unwrap check violated alone
+    from . import c02_extra
+    c02_extra.keywrap_rows(check, repo)
     # EAX, SIV, CCM and GCM as whole Python compositions over stand-in primitives: ciphertext, tag, receiver
     from . import aead_compose
     aead_compose.compose_tables(check, ctx)
